@@ -520,6 +520,8 @@ def attach(tree, kf_active):
     os.makedirs(os.path.join(tree, 'examples'), exist_ok=True)
     with open(os.path.join(tree, 'examples', 'verif_replay.rs'), 'w') as out:
         out.write(open(os.path.join(VERIF, 'lib', 'replay_main.rs')).read())
+    with open(os.path.join(tree, 'examples', 'verif_e2.rs'), 'w') as out:
+        out.write(open(os.path.join(VERIF, 'lib', 'e2_tool.rs')).read())
     with open(os.path.join(drv, 'verif_bin_gen.rs'), 'w') as out:
         out.write('// GENERATED\n#[cfg(not(kani))]\npub fn table() -> Vec<(&\'static str, fn())> {\n    let mut v: Vec<(&\'static str, fn())> = Vec::new();\n')
         for crate, t in table_entries:
